@@ -191,6 +191,8 @@ impl SessionStorageBackend for InMemorySessionStore {
     #[tracing::instrument(name = "Change id for server-side session record", level = tracing::Level::TRACE, skip_all)]
     async fn change_id(&self, old_id: &SessionId, new_id: &SessionId) -> Result<(), ChangeIdError> {
         let mut guard = self.0.lock().await;
+        // An absent or expired `old_id` is reported as such, whatever the state of `new_id`.
+        Self::get_mut_if_fresh(&mut guard, old_id)?;
         if Self::get_mut_if_fresh(&mut guard, new_id).is_ok() {
             return Err(DuplicateIdError {
                 id: new_id.to_owned(),
